@@ -237,7 +237,7 @@ def check_serialize(ctx, cases):
         if r["str"] is not None:
             terms.append("obs_serialize %s %s %s %s %s %s" % (kind_of(fo), cstr("utf-8"), cstr("\n"), NEWLINES[nl], cstr(chunk), D))
         runs.append(r)
-    vals = ctx.coq_eval("c12_ser", REQ, terms, chunk=150)
+    vals = ctx.coq_eval("c12_ser_%d" % os.getpid(), REQ, terms, chunk=150)
     for i, r in enumerate(runs):
         case, obs, d = r["case"], r["obs"], r["doc"]
         fo, enc, nl = case["fo"], case["enc"], case["nl"]
@@ -248,8 +248,9 @@ def check_serialize(ctx, cases):
         ctx.count(1, "serialize/%s/%s/%s/%s" % (kind_of(fo), enc.lower(), repr(nl), case["route"]))
         if (obs[0] or obs[2]) and (enc.lower() != "utf-8" or nl is not None or fo is not None):
             ctx.nontrivial_case((obs, enc, nl, fo))
-        ctx.sample({"prologue": obs[0], "root": case["root"], "epilogue": obs[2], "encoding": enc, "newline": nl,
-                    "format": fo, "siblings": shape, "saved_head": (r["saved"] or b"")[:70].decode("latin-1")})
+        if obs[0] and obs[2] and r["saved"]:
+            ctx.sample({"prologue": obs[0], "root": case["root"], "epilogue": obs[2], "encoding": enc, "newline": nl,
+                        "format": fo, "siblings": shape, "saved": r["saved"].decode(enc, "replace")[:300]})
         if mv is None or ms is None:
             ctx.mismatch("doc_serialize evaluation", "coqc failed on the case file")
             continue
@@ -408,7 +409,7 @@ def check_reader(ctx, streams):
             got = ("err",)
         terms.append("obs_parse %s %s %s" % (cbool(rc), cbool(rp), cstr(s)))
         runs.append((s, rc, rp, got))
-    vals = ctx.coq_eval("c12_rd", REQ, terms, chunk=150)
+    vals = ctx.coq_eval("c12_rd_%d" % os.getpid(), REQ, terms, chunk=150)
     root = ("tag", "", "r", [], [])
     for (s, rc, rp, got), v in zip(runs, vals):
         ctx.count(1, "reader/" + ("well-formed" if got[0] == "ok" else "rejected") + ("/options" if rc or rp else ""))
@@ -467,7 +468,7 @@ def check_set_root(ctx, cases):
             continue
         terms.append("obs_set_root %s %s" % (cdoc(before[0], DUMMY, before[2]), cdoc(tgt_pro, name, tgt_epi)))
         runs.append((case, before, name, got, how))
-    vals = ctx.coq_eval("c12_sr", REQ, terms, chunk=150)
+    vals = ctx.coq_eval("c12_sr_%d" % os.getpid(), REQ, terms, chunk=150)
     for (case, before, name, got, how), v in zip(runs, vals):
         ctx.count(1, "set_root/" + how)
         if before[0] or before[2]:
@@ -508,7 +509,7 @@ def check_strip(ctx, cases):
                     runs.append((case, src, rc, rp, full, got))
         except Exception as e:  # noqa: BLE001
             ctx.fail("parsing with parser options raised %s: %s" % (type(e).__name__, e), dict(case, src=src))
-    vals = ctx.coq_eval("c12_st", REQ, terms, chunk=150)
+    vals = ctx.coq_eval("c12_st_%d" % os.getpid(), REQ, terms, chunk=150)
     for (case, src, rc, rp, full, got), v in zip(runs, vals):
         ctx.count(1, "strip/%s%s" % ("c" if rc else "", "p" if rp else ""))
         if v is None:
@@ -523,10 +524,18 @@ def check_strip(ctx, cases):
 
 # --------------------------------------------------------------------------------------------------
 
-def gen_misc(rng):
+def fits(s, cls):
+    try:
+        s.encode({"ascii": "ascii", "latin1": "iso-8859-1", "any": "utf-8"}[cls])
+        return True
+    except UnicodeEncodeError:
+        return False
+
+
+def gen_misc(rng, cls):
     if rng.random() < 0.55:
-        return ("comment", rng.choice(COMMENTS))
-    t, c = rng.choice(PIS)
+        return ("comment", rng.choice([c for c in COMMENTS if fits(c, cls)]))
+    t, c = rng.choice([p for p in PIS if fits(p[0] + p[1], cls)])
     return ("pi", t, c)
 
 
@@ -535,8 +544,14 @@ def gen_doc_case(rng, i):
     n_epi = rng.choice([0, 1, 1, 2, 2, 3])
     if i < 16:                                 # every shape 0..3 x 0..3 at least once
         n_pro, n_epi = i // 4, i % 4
-    return {"pro": [gen_misc(rng) for _ in range(n_pro)], "root": rng.choice(ROOTS) if i >= len(ROOTS) else ROOTS[i],
-            "epi": [gen_misc(rng) for _ in range(n_epi)], "route": "api" if rng.random() < 0.35 else "parse",
+    # the character repertoire of the whole document: ASCII, Latin-1 or anything (so that the narrow encodings
+    # meet representable documents most of the time, and unrepresentable ones some of the time)
+    cls = rng.choice(["ascii", "ascii", "latin1", "latin1", "any"])
+    root = ROOTS[i] if i < len(ROOTS) else rng.choice([r for r in ROOTS if fits(r, cls)])
+    if i < len(ROOTS):
+        cls = "any"
+    return {"pro": [gen_misc(rng, cls) for _ in range(n_pro)], "root": root,
+            "epi": [gen_misc(rng, cls) for _ in range(n_epi)], "route": "api" if rng.random() < 0.35 else "parse",
             "prepend": rng.random() < 0.5}
 
 
@@ -590,8 +605,8 @@ def run(ctx, args):
                 check_strip(ctx, [{"pro": [], "root": case["src"], "epi": []}])
             return ctx.finish("replay of " + args.replay)
         quick = ctx.tier == "quick"
-        n_docs = 100 if quick else 700
-        per_doc = 4 if quick else 12
+        n_docs = 120 if quick else 2000
+        per_doc = 5 if quick else 12
         docs = [gen_doc_case(ctx.rng, i) for i in range(n_docs)]
         ser_cases = []
         for i, dc in enumerate(docs):
@@ -599,15 +614,15 @@ def run(ctx, args):
                 ser_cases.append(dict(dc, enc=enc, nl=nl, fo=fo, also_write=(i + j) % 3 == 0, also_str=(i + j) % 2 == 0 or not quick))
         check_serialize(ctx, ser_cases)
         streams = []
-        for _ in range(260 if quick else 2500):
+        for _ in range(260 if quick else 6000):
             s = gen_stream(ctx.rng)
             r = ctx.rng.random()
             streams.append((s, r < 0.2 or r > 0.9, 0.1 < r < 0.2 or r > 0.8))
         streams += [(s, False, False) for s in ILL_FORMED]
         check_reader(ctx, streams)
         hows = ["new", "clone", "detached-child", "other-document-root", "text"]
-        check_set_root(ctx, [dict(dc, new_root=hows[i % len(hows)]) for i, dc in enumerate(docs[:80 if quick else 400])])
-        check_strip(ctx, [dc for dc in docs[:90 if quick else 500]])
+        check_set_root(ctx, [dict(dc, new_root=hows[i % len(hows)]) for i, dc in enumerate(docs[:80 if quick else 1000])])
+        check_strip(ctx, [dc for dc in docs[:90 if quick else 1000]])
     finally:
         shutil.rmtree(SCRATCH, ignore_errors=True)
     return ctx.finish(
